@@ -49,6 +49,7 @@ class VLoop(base_events.BaseEventLoop):
         self.tie_count = 0
         self.tie_seq = 0
         self.on_add_reader = None
+        self.iter_cost = 0.0  # virtual seconds every busy loop iteration takes (a slow / loaded host)
         self.on_tick = None  # optional invariant monitor, called once per iteration
         self._vheap: list = []
         self._vseq = 0
@@ -145,6 +146,8 @@ class VLoop(base_events.BaseEventLoop):
             if WEDGE[0] is not None:
                 raise SimWedge(WEDGE[0])
         h = None
+        if self.iter_cost and n:
+            self._vtime += self.iter_cost
         if self.steps > self.step_cap:
             raise SimStepCap(f"step cap {self.step_cap} exceeded at t={self._vtime}")
         if self.on_tick is not None:
